@@ -11,7 +11,7 @@ use vstd::std_specs::ops::*;
 use vstd::arithmetic::div_mod::*;
 verus! {
 //@ include prelude/std.rs
-//@ include prelude/value.rs
+//@ include prelude/error.rs\n//@ include prelude/runtime.rs\n//@ include prelude/value.rs
 //@ include prelude/float.rs
 
 /// an evaluated filter argument (stand-in for ValueCow<'_>)
